@@ -49,6 +49,11 @@ func (c *CompositeResourceDefinition) ValidateUpdate(old *CompositeResourceDefin
 			errs = append(errs, field.Invalid(field.NewPath("spec", "claimNames", "kind"), c.Spec.ClaimNames.Kind, "field is immutable"))
 		}
 	}
+	// Claim names cannot be removed once they have been set. The CEL
+	// transition rule on the field does not cover removal.
+	if c.Spec.ClaimNames == nil && old.Spec.ClaimNames != nil {
+		errs = append(errs, field.Invalid(field.NewPath("spec", "claimNames"), c.Spec.ClaimNames, "field is immutable"))
+	}
 	warns, newErr := c.Validate()
 	errs = append(errs, newErr...)
 	return warns, errs
